@@ -12,6 +12,7 @@ EXPLANATION = (
     "submit/callback; the retrieval loop cannot stop while iterating or while dispatched > completed; every "
     "backend attaches the callback for success and failure; BatchedCalls survives pickling in order; per-call "
     "state is reset (C04.RESET). Value equality, pool internals and the auto-batching heuristic are NOT decided."
+    ' The pre_dispatch amount handed to the look-ahead slice is >= 1 on every path (an amount of 0 would dispatch nothing).'
 )
 ASSUMPTIONS = [
     "the pools call the completion callback at most once per submitted batch",
